@@ -289,9 +289,11 @@ def run_C17(run):
     # compile-time known finding: 3-letter writable swizzles of a vec4 that name w
     if not probe_compile(run, "probe_xyw", "#define GLM_FORCE_SWIZZLE\n#include <glm/glm.hpp>\nint main(){ glm::vec4 v(1,2,3,4); v.xyw = glm::vec3(7,8,9); return (int)v.w; }\n", ["-D_MSC_EXTENSIONS"]):
         fails.append({"fn": "swizzle_write_vec4_3letters_with_w", "class": "ill-formed", "input": "v.xyw = vec3(7,8,9) (operator swizzles)", "expected": "assignable: no repeated letter", "got": "does not compile"})
+    # the compiled types, SIMD constructor specialisations included (the tracing scalar cannot instantiate them): every constructor shape with tagged arguments
+    fails += oracle_sweep(run, "C17", [("all", ["-D_MSC_EXTENSIONS"]), SIMD_AVX2, SIMD_SSE2], run.tier)   # _MSC_EXTENSIONS: language extensions on, so that the aligned qualifiers exist in the pure build too
     run.fails = run.triage(fails)
     run.assumptions = ["identity of expression trees with symbolic inputs: holds for all component values; Cv nodes are exactly the static_casts the constructor performs",
-                       "element type float (and int arguments for cross-type constructors); other element types share the templates; SIMD shuffle specialisations are covered under C03",
+                       "element type float (and int arguments for cross-type constructors); other element types share the templates; the SIMD constructor specialisations (aligned float/double/int vectors under SSE2 and AVX2) and the other element types are run concretely by oracle_C17.cpp with tagged arguments (violation search); SIMD shuffle specialisations are covered under C03",
                        "operator swizzles are traced with -D_MSC_EXTENSIONS (GLM_LANG_EXT), the only way to enable them on GCC without a SIMD arch"]
     return run.finish(TRUST_COMMON + ["gen_C17.py: enumerates accessor names / constructor signatures by rule (the Coq side re-generates the required name list independently and checks completeness)"],
                       "finite enumeration: all 2/3/4-letter words over xyzw/rgba/stpq for source lengths 2-4 in member-function and operator form, gtx free functions for lengths 1-4, writable operator swizzles, all vector constructor argument-shape compositions with scalar/vec1/int mixes, matrix and quaternion constructors; component values symbolic",
